@@ -60,7 +60,7 @@ func apiDir() (string, error) {
 
 // dirConsts type-checks the package in an absolute directory (imports stubbed) and returns its constants and, for every
 // typed constant block, the names in declaration order keyed by type name.
-func dirConsts(dir string) (map[string]constant.Value, map[string][]string, error) {
+func c14DirConsts(dir string) (map[string]constant.Value, map[string][]string, error) {
 	pkgs, err := parser.ParseDir(fset, dir, func(fi os.FileInfo) bool { return !strings.HasSuffix(fi.Name(), "_test.go") }, 0)
 	if err != nil {
 		return nil, nil, err
@@ -125,7 +125,7 @@ func statusCtor(e ast.Expr) (string, error) {
 	return "." + strings.TrimPrefix(k, "StreamFilter"), nil
 }
 
-func isLogStmt(s ast.Stmt) bool {
+func c14IsLogStmt(s ast.Stmt) bool {
 	switch x := s.(type) {
 	case *ast.ExprStmt:
 		return strings.HasPrefix(types.ExprString(x.X), "log.")
@@ -161,7 +161,7 @@ func loopSwitch2(fd *ast.FuncDecl, cursor string) (string, bool, error) {
 		}
 		reset, ret, cont, recPhase := false, false, false, false
 		for _, b := range cc.Body {
-			if isLogStmt(b) {
+			if c14IsLogStmt(b) {
 				continue
 			}
 			switch x := b.(type) {
@@ -225,7 +225,7 @@ func cursorGuard(fd *ast.FuncDecl) (string, error) {
 			break
 		}
 		is, ok := st.(*ast.IfStmt)
-		if !ok || isLogStmt(st) {
+		if !ok || c14IsLogStmt(st) {
 			continue
 		}
 		if len(is.Body.List) != 1 || is.Else != nil || is.Init != nil {
@@ -281,7 +281,7 @@ func cursorGuard(fd *ast.FuncDecl) (string, error) {
 func handlerEffect(body []ast.Stmt) (string, error) {
 	eff := ""
 	for _, b := range body {
-		if isLogStmt(b) {
+		if c14IsLogStmt(b) {
 			continue
 		}
 		switch x := b.(type) {
@@ -418,7 +418,7 @@ func (g *peGen) block(stmts []ast.Stmt, ind string) (string, error) {
 		}
 		return prefix + "\n" + ind + k, nil
 	}
-	if isLogStmt(st) {
+	if c14IsLogStmt(st) {
 		return next("")
 	}
 	switch x := st.(type) {
@@ -509,7 +509,7 @@ func (g *peGen) block(stmts []ast.Stmt, ind string) (string, error) {
 
 func genFilterPhase() (string, error) {
 	// (a) Phase enum
-	_, order, err := dirConsts(filepath.Join(repo, "pkg/types"))
+	_, order, err := c14DirConsts(filepath.Join(repo, "pkg/types"))
 	if err != nil {
 		return "", err
 	}
@@ -629,7 +629,7 @@ func genFilterPhase() (string, error) {
 	if err != nil {
 		return "", err
 	}
-	avals, aorder, err := dirConsts(ad)
+	avals, aorder, err := c14DirConsts(ad)
 	if err != nil {
 		return "", err
 	}
@@ -725,7 +725,7 @@ func genFilterPhase() (string, error) {
 	s += "  | _ => .none\n"
 	s += "/-- downStream.senderFilterStatusHandler -/\ndef senderHandler : FStatus → HEffect\n"
 	for _, st := range sh.Body.List {
-		if isLogStmt(st) {
+		if c14IsLogStmt(st) {
 			continue
 		}
 		is, ok := st.(*ast.IfStmt)
